@@ -67,8 +67,10 @@ def run_pair(job):
     lay = legacy_layout(rng) if legacy else layouts.generate(rng, hostile=opts.get("hostile", False), regimes=("lf", "crlf", "cr"), stale=0.25, only_partial=0.25)
     use_vcs = opts.get("vcs")
     with drive.scratch_dir("c13") as d:
+        # one project in nine has a message template that str.format rejects (an unknown placeholder, an unbalanced brace): the dry run must fail like the real one
+        bad_tmpl = [None, {"commit_message": "bump {ticket}: {old_version} -> {new_version}"}, {"tag_message": "release {new_version} {stable"}][(seed % 9 == 4) * (1 + seed % 2)]
         proj = lay.materialize(os.path.join(d, "p"), vcs="git" if use_vcs else None, commit=bool(use_vcs),
-                               extra=None)
+                               extra=bad_tmpl)
         env = None
         fv = None
         nofetch = ["--no-fetch"]
@@ -94,7 +96,7 @@ def run_pair(job):
     evs = []
     facts = dict(seed=seed, vp=lay.vp, dry_exit=r1.exit, real_exit=r2.exit, dry_changed=[k for k in before if before[k] != mid.get(k)] + sorted(set(mid) - set(before)),
                  dry_mutating=[e[1] for e in dry_log if e[0] == "cmd" and e[1] in ("add_path", "commit", "tag", "tag_light", "push", "push_tag")],
-                 fetching=not nofetch,
+                 fetching=not nofetch, bad_template=bool(bad_tmpl),
                  dry_hooks=[e for e in dry_log if e[0] == "hook"], unparsable=hunks is None, flags=lay.flags, legacy=bool(legacy), exc=[x for x in (r1.exc, r2.exc) if x],
                  dry_new=r1.new_version(), real_new=r2.new_version(), stdout=r1.stdout[:400] if hunks is None else "")
     if r1.exit == 0 and hunks is not None:
